@@ -6,6 +6,7 @@ import PnaVerif.Model.Toy
 import PnaVerif.Model.Pipeline
 import PnaVerif.Model.Split
 import PnaVerif.Model.Solid
+import PnaVerif.Model.Cli.Text
 import PnaVerif.Model.Cli.Wire
 /-
   Line-protocol driver: one request per line on stdin, one canonical answer per line on stdout.
@@ -67,6 +68,21 @@ def parseNatList (s : String) : Option (List Nat) :=
 
 def bytesListS (l : List Bytes) : String :=
   if l.isEmpty then "." else ",".intercalate (l.map toHexW)
+
+def strOfBytes (b : Bytes) : Option (List Char) :=
+  (String.fromUTF8? (ByteArray.mk b.toArray)).map String.toList
+
+def ownerOf (k : Nat) (n : List Char) : Cli.Text.Owner :=
+  match k with
+  | 0 => .owner | 1 => .user n | 2 => .ownerGroup | 3 => .group n | 4 => .mask | _ => .other
+
+def aceS (a : Cli.Text.Ace) : String :=
+  let (k, n) : Nat × List Char := match a.owner with
+    | .owner => (0, []) | .user n => (1, n) | .ownerGroup => (2, []) | .group n => (3, n) | .mask => (4, []) | .other => (5, [])
+  s!"{Cli.Text.bitsToNat Cli.Text.flagTable a.flags} {k} {toHexW (Cli.Text.utf8 n)} {if a.allow then 1 else 0} {Cli.Text.bitsToNat Cli.Text.permTable a.perms}"
+
+def aceErrS : Cli.Text.AceErr → String
+  | .notEnough => "notEnough" | .tooMany => "tooMany" | .badAccess => "badAccess" | .badOwner => "badOwner"
 
 def parseErr (s : String) : Option Err :=
   match s with
@@ -151,6 +167,36 @@ def handle (line : String) : String :=
   | ["entry.reser2", cs] =>
     match parseChunks cs with
     | some cs => outcomeS (fun e => chunkListS (serEntry e)) ((parseEntry cs).bind fun e => parseEntry (serEntry e))
+    | none => "bad-op"
+  | ["ace.show", flags, kind, name, allow, perms] =>
+    match flags.toNat?, kind.toNat?, ofHex name >>= strOfBytes, perms.toNat? with
+    | some f, some k, some n, some p =>
+      let a : Cli.Text.Ace := { flags := Cli.Text.natToBits Cli.Text.flagTable f, owner := ownerOf k n, allow := allow == "1", perms := Cli.Text.natToBits Cli.Text.permTable p }
+      "ok " ++ toHexW (Cli.Text.utf8 (Cli.Text.showAce a))
+    | _, _, _, _ => "bad-op"
+  | ["acep.show", plat, flags, kind, name, allow, perms] =>
+    match flags.toNat?, kind.toNat?, ofHex name >>= strOfBytes, perms.toNat?, (if plat == "none" then some none else (ofHex plat >>= strOfBytes).map some) with
+    | some f, some k, some n, some p, some pl =>
+      let a : Cli.Text.Ace := { flags := Cli.Text.natToBits Cli.Text.flagTable f, owner := ownerOf k n, allow := allow == "1", perms := Cli.Text.natToBits Cli.Text.permTable p }
+      "ok " ++ toHexW (Cli.Text.utf8 (Cli.Text.showAceP pl a))
+    | _, _, _, _, _ => "bad-op"
+  | ["ace.parse", h] =>
+    match ofHex h >>= strOfBytes with
+    | some s => (match Cli.Text.parseAce s with | .ok a => "ok " ++ aceS a | .error e => "err " ++ aceErrS e)
+    | none => "bad-op"
+  | ["acep.parse", h] =>
+    match ofHex h >>= strOfBytes with
+    | some s => (match Cli.Text.parseAceP s with
+      | .ok (p, a) => "ok " ++ (match p with | none => "none" | some q => toHexW (Cli.Text.utf8 q)) ++ " " ++ aceS a
+      | .error e => "err " ++ aceErrS e)
+    | none => "bad-op"
+  | ["xval.parse", h] =>
+    match ofHex h >>= strOfBytes with
+    | some s => (match Cli.Text.parseValue s with | some b => "ok " ++ toHexW b | none => "err")
+    | none => "bad-op"
+  | ["xval.show", enc, h] =>
+    match ofHex h with
+    | some b => "ok " ++ toHexW (Cli.Text.utf8 (if enc == "2" then Cli.Text.showHex b else Cli.Text.showB64 b))
     | none => "bad-op"
   | ["solid.iter", h, term] =>
     match ofHex h, (if term == "none" then some none else (parseErr term).map some) with
